@@ -49,6 +49,8 @@ func c20Run(c *core.Ctx, k c20Case) {
 		c20ClientStore(c, k)
 	case "client-apply", "client-apply-url", "client-json":
 		c20ClientApply(c, k)
+	case "client-link":
+		c20ClientLink(c, k)
 	}
 }
 
@@ -146,8 +148,10 @@ func init() {
 			}()
 			c20Corpus(c)
 			// ---- near-miss link texts
+			linkBase := c20PB(c20ClientConfig(c, 0.6, true))
 			for _, s := range c20NearMiss {
 				c20Run(c, c20Case{Kind: "link", Text: c20Hex(s)})
+				c20Run(c, c20Case{Kind: "client-link", PB: linkBase, Text: c20Hex(s)})
 			}
 			// ---- escaping, integers, base64, query strings
 			for i := 0; i < c.N(400, 4000); i++ {
@@ -214,8 +218,11 @@ func init() {
 				c20Run(c, k)
 				urls, err := appctl.ClientProfileToMultiURLs(p)
 				if err == nil && i%3 == 0 {
-					for _, t := range c20Mutations(c, urls[0], c.N(40, 400), c.N(12, 60)) {
+					for j, t := range c20Mutations(c, urls[0], c.N(40, 400), c.N(12, 60)) {
 						c20Run(c, c20Case{Kind: "link", Text: c20Hex(t)})
+						if j%8 == 0 {
+							c20Run(c, c20Case{Kind: "client-link", PB: linkBase, Text: c20Hex(t), JSON: j%16 == 0})
+						}
 					}
 				}
 			}
@@ -266,7 +273,7 @@ func init() {
 				if i%3 == 0 {
 					c20Run(c, c20Case{Kind: "client-apply-url", PB: c20PB(cc), PB2: c20PB(cpatch), JSON: jsonFile})
 				}
-				if i%10 == 0 {
+				if i%5 == 0 {
 					if txt, err := common.MarshalJSON(patch); err == nil {
 						for _, t := range c20Mutations(c, string(txt), c.N(60, 400), c.N(20, 100)) {
 							c20Run(c, c20Case{Kind: "server-json", PB: c20PB(sc), Text: c20Hex(t), JSON: jsonFile})
